@@ -293,3 +293,25 @@ topology('T7',
                                      Branch('1', '2', elm.current_source('Iq', g.complex('I'), g.complex('Yq'))),
                                      Branch('2', '1', elm.voltage_source('Vq', g.complex('V'), g.complex('Zq')))], '0')),
          lambda net: net['Iq'].element.I != 0 and net['Iq'].element.Y != 0 and net['Vq'].element.V != 0 and net['Vq'].element.Z != 0)
+
+
+@contract('CircuitCalculator.Network.NodalAnalysis.bias_point_analysis.open_circuit_voltage', props=['C01', 'C06', 'C04'], name='open_circuit_voltage_two_current_sources',
+          bounded='two current sources listed in NON-alphabetical order feeding different nodes of an admittance triangle')
+class ocv_two_current_sources:
+    def inputs(g):
+        return dict(net=Network([Branch('0', 'a', elm.current_source('Iq2', g.complex('I2'))), Branch('0', 'b', elm.current_source('Iq1', g.complex('I1'))),
+                                 Branch('a', '0', elm.admittance('Y1', g.complex('Y1'))), Branch('b', '0', elm.admittance('Y2', g.complex('Y2'))),
+                                 Branch('a', 'b', elm.admittance('Y3', g.complex('Y3')))], '0'))
+
+    def requires(net):
+        return wellposed_net(net) and net['Y1'].element.Y != 0 and net['Y2'].element.Y != 0 and net['Y3'].element.Y != 0
+
+    def call(f, net):
+        return (f(net, 'a', '0'), f(net, 'b', '0'), f(net, 'a', 'b'))
+
+    def ensures(result, net):
+        pa, pb, ab = result
+        Y1, Y2, Y3 = net['Y1'].element.Y, net['Y2'].element.Y, net['Y3'].element.Y
+        return {'currents balance at a (Iq2 feeds a)': eq(pa * (Y1 + Y3) - pb * Y3, net['Iq2'].element.I),
+                'currents balance at b (Iq1 feeds b)': eq(pb * (Y2 + Y3) - pa * Y3, net['Iq1'].element.I),
+                'difference of the two': eq(ab, pa - pb)}
